@@ -1,5 +1,5 @@
 Require Extraction.
 Require Import ExtrOcamlBasic.
-From SCMO Require Import Lib.Val Model.C09.
-Definition run := run_C09.
+From SCMO Require Import Lib.Val Model.C09 Model.C09x.
+Definition run := run_C09x.
 Extraction "c09_model.ml" run.
